@@ -1,5 +1,5 @@
 pub type Coin = BigNum;
-opaque_types!(PlutusScriptSourceEnum, DatumSourceEnum, PlutusData, ExUnits, NativeScriptSourceEnum, Certificate, RewardAddress, ScriptHash, AssetMintMap);
+opaque_types!(PlutusScriptSourceEnum, DatumSourceEnum, PlutusData, ExUnits, NativeScriptSourceEnum, Certificate, ScriptHash, AssetMintMap);
 pub type PolicyID = ScriptHash;
 clone_eq!(PlutusScriptSourceEnum, DatumSourceEnum, PlutusData, ExUnits, RedeemerTag);
 impl vstd::std_specs::convert::FromSpecImpl<usize> for BigNum {
@@ -7,3 +7,27 @@ impl vstd::std_specs::convert::FromSpecImpl<usize> for BigNum {
     open spec fn from_spec(v: usize) -> BigNum { BigNum(v as u64) }
 }
 impl From<usize> for BigNum { #[verifier::external_body] fn from(x: usize) -> (r: BigNum) { unimplemented!() } }
+
+/// credential of a reward account as far as the ledger order looks at it: kind and raw hash bytes (its own methods: ASSUMED contracts)
+#[verifier::external_body] pub struct Credential { _p: core::marker::PhantomData<u8> }
+#[verifier::external_body] pub struct RawHash { _p: core::marker::PhantomData<u8> }
+impl RawHash { pub uninterp spec fn view(&self) -> Seq<u8>; }
+impl Credential {
+    pub uninterp spec fn is_script(&self) -> bool;
+    pub uninterp spec fn raw(&self) -> Seq<u8>;
+    #[verifier::external_body] pub fn has_script_hash(&self) -> (r: bool) ensures r == self.is_script() { unimplemented!() }
+    #[verifier::external_body] pub fn to_raw_bytes(&self) -> (r: RawHash) ensures r@ == self.raw() { unimplemented!() }
+}
+// Vec<u8>'s `<` is std's lexicographic order (ASSUMED for std)
+impl vstd::std_specs::cmp::PartialEqSpecImpl for RawHash {
+    open spec fn obeys_eq_spec() -> bool { true }
+    open spec fn eq_spec(&self, other: &RawHash) -> bool { self@ == other@ }
+}
+impl PartialEq for RawHash { #[verifier::external_body] fn eq(&self, o: &RawHash) -> (r: bool) { unimplemented!() } }
+impl vstd::std_specs::cmp::PartialOrdSpecImpl for RawHash {
+    open spec fn obeys_partial_cmp_spec() -> bool { true }
+    open spec fn partial_cmp_spec(&self, other: &RawHash) -> Option<core::cmp::Ordering> {
+        if lex_lt(self@, other@) { Some(core::cmp::Ordering::Less) } else if self@ == other@ { Some(core::cmp::Ordering::Equal) } else { Some(core::cmp::Ordering::Greater) }
+    }
+}
+impl PartialOrd for RawHash { #[verifier::external_body] fn partial_cmp(&self, o: &RawHash) -> (r: Option<core::cmp::Ordering>) { unimplemented!() } }
